@@ -941,9 +941,77 @@ pub fn run_setop_mut<P: TP, L: Val, Rv: Val>(
     Ok(())
 }
 
+/// value-only operations through mutable accessors / traversals (C13)
+fn is_value_only_mut(op: &Op) -> bool {
+    match op {
+        Op::GetMut { .. } | Op::GetLpmMut { .. } | Op::IterMut { .. } | Op::ValuesMut { .. } | Op::ChildrenMut { .. } | Op::SetOpMut { .. } => true,
+        Op::ViewMut { act, .. } => matches!(act, ViewAct::ValueMut | ViewAct::PrefixValueMut | ViewAct::IterMut(_) | ViewAct::ValuesMut(_) | ViewAct::IntoIter(_)),
+        _ => false,
+    }
+}
+
+/// C13: after writes through yielded references every written entry holds its new value, nothing
+/// else changed (values, key set, len, shape) and every read API sees the new values.
+fn c13_after<P: TP, V: Val>(side: &mut Side<P, V>, env: &mut Env, before_keys: &[Key], before_shape: &crate::model::Shape, before_len: usize) -> R {
+    let step = env.step;
+    let retag = |f: crate::env::Fail, what: &str| crate::env::Fail {
+        prop: "C13",
+        sig: format!("C13:after-write:{what}"),
+        msg: format!("after writing through the yielded references: {}", f.msg),
+    };
+    crate::observe::check_contents(side, env).map_err(|f| retag(f, "contents"))?;
+    ensure!(side.model.keys() == before_keys, "C13", "C13:after-write:key-set", "step {step}: the set of stored prefixes changed");
+    ensure!(side.map.len() == before_len, "C13", "C13:after-write:len", "step {step}: len() changed from {before_len} to {}", side.map.len());
+    let after = shape_of(&side.map)?;
+    ensure!(&after == before_shape, "C13", "C13:after-write:shape", "step {step}: the tree shape changed from {} to {}", before_shape.show(), after.show());
+    // visible through other read APIs
+    for (k, st) in side.model.m.iter() {
+        let p: P = crate::model::mk_key(*k);
+        let g = side.map.get(&p).map(|v| v.id());
+        ensure!(g == Some(st.value), "C13", "C13:after-write:get", "step {step}: get({:?}) = {:?}, written value {}", k, g, st.value);
+        let l = side.map.get_lpm(&p).map(|(pp, v)| (key_of(pp), v.id()));
+        ensure!(l == Some((*k, st.value)), "C13", "C13:after-write:get_lpm", "step {step}: get_lpm({:?}) = {:?}, written value {}", k, l, st.value);
+        let vv = (&side.map).view_at(p.clone()).and_then(|v| v.value().map(|x| x.id()));
+        ensure!(vv == Some(st.value), "C13", "C13:after-write:view", "step {step}: view_at({:?}).value() = {:?}, written value {}", k, vv, st.value);
+    }
+    let vals: Vec<u64> = side.map.values().take(iter_limit(&side.model)).map(|v| v.id()).collect();
+    let want: Vec<u64> = side.model.m.values().map(|s| s.value).collect();
+    ensure!(vals == want, "C13", "C13:after-write:values", "step {step}: values() = {:?}, expected {:?}", vals, want);
+    Ok(())
+}
+
 /// One step of a history.
 pub fn step<P: TP, VA: Val, VB: Val>(w: &mut World<P, VA, VB>, op: &Op, env: &mut Env) -> R {
     env.ev(op.kind_name());
+    if env.focus.has(13) && is_value_only_mut(op) {
+        let ka = w.a.model.keys();
+        let kb = w.b.model.keys();
+        let (sa, sb) = (shape_of(&w.a.map)?, shape_of(&w.b.map)?);
+        let (la, lb) = (w.a.map.len(), w.b.map.len());
+        let saved = env.focus;
+        env.focus = crate::env::Focus(1 << 13);
+        let r = step_inner(w, op, env);
+        env.focus = saved;
+        // a content mismatch right after a value-only mutable operation is a C13 failure
+        r.map_err(|f| {
+            if f.prop == "C01" || f.prop == "C03" {
+                crate::env::Fail {
+                    prop: "C13",
+                    sig: format!("C13:after-write:{}", f.sig),
+                    msg: format!("after writing through the yielded references: {}", f.msg),
+                }
+            } else {
+                f
+            }
+        })?;
+        c13_after(&mut w.a, env, &ka, &sa, la)?;
+        c13_after(&mut w.b, env, &kb, &sb, lb)?;
+        return Ok(());
+    }
+    step_inner(w, op, env)
+}
+
+fn step_inner<P: TP, VA: Val, VB: Val>(w: &mut World<P, VA, VB>, op: &Op, env: &mut Env) -> R {
     match op {
         Op::SetOpMut { kind, ops, nav_a, nav_b, mask } => {
             env.ev("setop_mut");
